@@ -18,7 +18,15 @@ def coords(g):
     irregular, unordered in space."""
     r = G.rng_of(g["gseed"])
     n, T = g["n"], g["T"]
-    if g.get("space") == "dense":
+    if g.get("space") == "regular":
+        # a rectangular lat x lon grid: several nodes share each parallel
+        lats = sorted(r.sample(range(-240, 241, 20), min(4, max(2, n // 3))))
+        lon0 = r.randrange(-600, 400, 20)
+        lat, lon = [], []
+        for i in range(n):
+            lat.append(lats[i % len(lats)] * 0.25)
+            lon.append((lon0 + 40 * (i // len(lats))) * 0.25)
+    elif g.get("space") == "dense":
         # a dense station network: spacing 2**-12 degrees around one site
         # (still exact in float32)
         la0, lo0 = r.choice((52.0, -33.5, 7.25)), r.choice((13.0, 151.25))
@@ -105,7 +113,8 @@ class C13(Machine):
                    "global_restored_and_compared", "cycle_not_dividing",
                    "anomalies_flag_true", "window_shorter_than_cycle",
                    "read_after_two_windows", "large_time_offset",
-                   "dense_station_network")
+                   "dense_station_network", "window_dict_reused",
+                   "regular_grid")
     real_vs_stub = {"real": ["Data, ClimateData, GeoGrid (set_window, "
                              "set_global_window, all derived series)"],
                     "stub": ["numpy global RNG re-seeded per run "
@@ -135,7 +144,8 @@ class C13(Machine):
         cls = a.choice(("ClimateData",) * 4 + ("Data",))
         g = {"T": T, "n": n, "gseed": a.randrange(10 ** 9),
              "tstep": a.choice(("regular", "regular", "irregular", "hours")),
-             "space": a.choice(("wide", "wide", "wide", "dense"))}
+             "space": a.choice(("wide", "wide", "regular", "regular",
+                                "dense"))}
         cfg = {"lru": lru, "class": cls,
                "cycle": a.choice((1, 2, 3, 4, 5, 7, 12, 12, 13)),
                "anomalies": a.random() < 0.3, "xseed": a.randrange(10 ** 9),
@@ -146,7 +156,10 @@ class C13(Machine):
         for _ in range(o.randrange(3, 13)):
             c = o.random()
             if c < 0.35:
-                ops.append({"op": "set_window", "w": self._window(o)})
+                # the caller may keep one window dictionary, edit it in place
+                # and pass the same object again
+                ops.append({"op": "set_window", "w": self._window(o),
+                            "alias": o.random() < 0.4})
             elif c < 0.5:
                 ops.append({"op": "set_global_window"})
             else:
@@ -225,11 +238,15 @@ class C13(Machine):
                       lon.astype(np.float32).astype(float),
                       cfg["cycle"], cfg["anomalies"] and cls == "ClimateData")
         w0 = None
+        held = {}                  # the caller's own window dictionary
         if cfg["init_window"]:
             w0 = self._resolve(cfg["window0"], time, lat, lon, R)
             tm, sm = model.masks(w0)
             if not tm.any() or not sm.any():
                 w0 = None
+            else:
+                held.update(w0)
+                w0 = held          # the constructor gets that object
         self.cls = cls
         if cls == "Data":
             obj = C.call(lambda: Data(observable=X.copy(), grid=grid,
@@ -252,6 +269,8 @@ class C13(Machine):
             R.probe("large_time_offset")
         if g.get("space") == "dense":
             R.probe("dense_station_network")
+        if g.get("space") == "regular":
+            R.probe("regular_grid")
         if g["T"] % cfg["cycle"]:
             R.probe("cycle_not_dividing")
         self.cls = cls
@@ -266,7 +285,13 @@ class C13(Machine):
             if k == "set_window":
                 w = self._resolve(op["w"], time, lat, lon, R)
                 tm, sm = model.masks(w)
-                out = C.call(obj.set_window, dict(w))
+                if op.get("alias"):
+                    held.clear()
+                    held.update(w)           # same object, new content
+                    R.probe("window_dict_reused")
+                    out = C.call(obj.set_window, held)
+                else:
+                    out = C.call(obj.set_window, dict(w))
                 sig.append(("w", bool(op["w"]["time_deg"]),
                             bool(op["w"]["space_deg"])))
                 if not tm.any() or not sm.any():
